@@ -100,6 +100,7 @@ def definition(d):
 
 # v2 is also the name of a value reference: an identifier governed by an ENUMERATED type is an enumeration item first
 PREAMBLE = ["D1 ::= INTEGER (0..255)", "E1 ::= ENUMERATED { v1, v2, v3 }", "v2 INTEGER ::= 3"]
+PREAMBLE_NAMES = {"D1", "E1"}
 
 
 # comment shapes between the definitions: none of their content may come back to life
